@@ -15,7 +15,7 @@ CORE = "src/orchestrator/core.py"
 TYPES = "src/core/types.py"
 UTILS = "src/cli/utils.py"
 SMELLS = "src/cli/linters/code_smells.py"
-FINGERPRINTS = [
+FINGERPRINTS = [  # hand-modelled structure: a change enlarges the correspondence budget, it is not an obligation
     (CORE, ["lint_files", "lint_files_parallel", "_execute_parallel_linting", "_collect_parallel_results",
             "_extract_violations_from_future", "_finalize_rules", "_lint_file_worker", "lint_directory_parallel",
             "lint_directory", "_safe_check_rule", "_execute_rules", "lint_file"]),
@@ -191,9 +191,19 @@ def par_threshold():
         raise Unsupported(f"threshold right operand {ast.unparse(r)}")
     if not isinstance(k, int) or isinstance(k, bool) or k < 0:
         raise Unsupported("threshold factor")
+    return defn("par_threshold_cmp", "cmp", op) + defn("par_threshold_factor", "nat", str(k))
+
+
+def par_fallback():
+    """below the threshold: `return self.lint_files(file_paths)` and nothing else"""
+    f = _orch("lint_files_parallel")
+    hits = [st for st in _body(f) if isinstance(st, ast.If) and isinstance(st.test, ast.Compare)]
+    if len(hits) != 1:
+        raise Unsupported("threshold test")
+    st = hits[0]
     if st.orelse or len(st.body) != 1 or ast.unparse(st.body[0]) != "return self.lint_files(file_paths)":
         raise Unsupported("fallback branch is not `return self.lint_files(file_paths)`")
-    return defn("par_threshold_cmp", "cmp", op) + defn("par_threshold_factor", "nat", str(k))
+    return defn("par_fallback_is_lint_files", "bool", "true")
 
 
 def par_empty_guard():
@@ -202,48 +212,6 @@ def par_empty_guard():
     if not b or ast.unparse(b[0]) != "if not file_paths:\n    return []":
         raise Unsupported("empty-input guard")
     return defn("par_empty_returns_nil", "bool", "true")
-
-
-def par_branch():
-    """the statements after the threshold test: parallel execution, then the parent's finalize"""
-    f = _orch("lint_files_parallel")
-    b = _body(f)
-    tail = [ast.unparse(st) for st in b[-3:]]
-    want = ["violations = self._execute_parallel_linting(file_paths, effective_workers)",
-            "violations.extend(self._finalize_rules())", "return violations"]
-    if tail != want:
-        raise Unsupported(f"parallel branch changed: {tail}")
-    g = _orch("_execute_parallel_linting")
-    src = [ast.unparse(st) for st in _body(g)]
-    want_g = ["work_items = [(fp, self.project_root, self.config) for fp in file_paths]",
-              "with ProcessPoolExecutor(max_workers=max_workers) as executor:\n"
-              "    futures = [executor.submit(_lint_file_worker, item) for item in work_items]\n"
-              "    return self._collect_parallel_results(futures)"]
-    if src != want_g:
-        raise Unsupported(f"_execute_parallel_linting changed: {src}")
-    h = _orch("_collect_parallel_results")
-    src = [ast.unparse(st) for st in _body(h)]
-    want_h = ["violations: list[Violation] = []",
-              "for future in as_completed(futures):\n    violations.extend(self._extract_violations_from_future(future))",
-              "return violations"]
-    if src != want_h:
-        raise Unsupported(f"_collect_parallel_results changed: {src}")
-    fz = [ast.unparse(st) for st in _body(_orch("_finalize_rules"))]
-    want_fz = ["self._ensure_rules_discovered()", "violations: list[Violation] = []",
-               "for rule in self.registry.list_all():\n    violations.extend(rule.finalize())", "return violations"]
-    if fz != want_fz:
-        raise Unsupported(f"_finalize_rules changed: {fz}")
-    return defn("par_branch_steps", "list string", coq_str_list(["one task per file", "extend in as_completed order", "parent _finalize_rules"]))
-
-
-def seq_steps():
-    f = _orch("lint_files")
-    src = [ast.unparse(st) for st in _body(f)]
-    want = ["violations = []", "for file_path in file_paths:\n    violations.extend(self.lint_file(file_path))",
-            "for rule in self.registry.list_all():\n    violations.extend(rule.finalize())", "return violations"]
-    if src != want:
-        raise Unsupported(f"lint_files changed: {src}")
-    return defn("seq_steps", "list string", coq_str_list(["lint_file per file in order", "finalize every rule"]))
 
 
 def _handlers(fn: ast.FunctionDef, what: str):
@@ -271,14 +239,10 @@ def _reraise_then_swallow(t: ast.Try, what: str):
 
 
 def worker():
-    """_lint_file_worker: fresh Orchestrator per task, to_dict of every violation, any Exception -> []"""
+    """_lint_file_worker: which exceptions are re-raised, which are turned into an empty result
+    (the body - fresh Orchestrator, lint_file, to_dict - is hand-modelled and tied by the correspondence check)"""
     f = find_func(parse(CORE), "_lint_file_worker")
     t = _handlers(f, "_lint_file_worker")
-    body = [ast.unparse(st) for st in t.body]
-    want = ["orchestrator = Orchestrator(project_root=project_root, config=config)",
-            "violations = orchestrator.lint_file(file_path)", "return [v.to_dict() for v in violations]"]
-    if body != want:
-        raise Unsupported(f"worker body changed: {body}")
     rer, catches = _reraise_then_swallow(t, "worker")
     return (defn("worker_reraises", "list string", coq_str_list(rer)) + defn("worker_catches", "string", coq_string(catches))
             + defn("worker_error_result_empty", "bool", "true"))
@@ -287,9 +251,6 @@ def worker():
 def extract():
     f = _orch("_extract_violations_from_future")
     t = _handlers(f, "_extract_violations_from_future")
-    body = [ast.unparse(st) for st in t.body]
-    if body != ["return [Violation.from_dict(d) for d in future.result()]"]:
-        raise Unsupported(f"extract body changed: {body}")
     rer, catches = _reraise_then_swallow(t, "extract")
     return (defn("extract_reraises", "list string", coq_str_list(rer)) + defn("extract_catches", "string", coq_string(catches))
             + defn("extract_error_result_empty", "bool", "true"))
@@ -320,14 +281,7 @@ def dir_parallel():
     want = ["file_paths = _collect_files_fast(dir_path, recursive)", "return self.lint_files_parallel(file_paths, max_workers=max_workers)"]
     if src != want:
         raise Unsupported(f"lint_directory_parallel changed: {src}")
-    g = _orch("lint_directory")
-    src = [ast.unparse(st) for st in _body(g)]
-    want_g = ["violations = []", "file_paths = _collect_files_fast(dir_path, recursive)",
-              "for file_path in file_paths:\n    violations.extend(self.lint_file(file_path))",
-              "for rule in self.registry.list_all():\n    violations.extend(rule.finalize())", "return violations"]
-    if src != want_g:
-        raise Unsupported(f"lint_directory changed: {src}")
-    return defn("dir_entry_points_collect_then_lint_files", "bool", "true")
+    return defn("dir_parallel_collects_then_lint_files_parallel", "bool", "true")
 
 
 # ------------------------------------------------------------------ CLI
@@ -461,9 +415,8 @@ ITEMS = [
     ("default_max_workers", default_max_workers),
     ("effective_workers", effective_workers),
     ("par_threshold", par_threshold),
+    ("par_fallback", par_fallback),
     ("par_empty_guard", par_empty_guard),
-    ("par_branch", par_branch),
-    ("seq_steps", seq_steps),
     ("worker", worker),
     ("extract", extract),
     ("safe_check", safe_check),
